@@ -203,6 +203,7 @@ type analysis struct {
 	infos     map[*ssa.Function]*fnInfo // decode-side functions only
 	named     []*types.Named            // named types of the scoped packages
 	nn        map[*ssa.Function]int     // never-nil-error summaries (1 = no / in progress, 2 = yes)
+	tokParams map[*ssa.Parameter]bool   // parameters that receive scanner-line tokens
 	countless map[*types.Package]bool   // formats that declare no record count (from the format specs, not from today's source)
 }
 
